@@ -1385,6 +1385,10 @@ class Converter:
                     # To return an outer-scope variable, an ONNX Graph has to
                     # use an explicit copy via Identity.
                     output = self._emit_copy(output, python_var)
+                elif any(output is other for other in self._current_fn.outputs):
+                    # Two python variables are bound to the same value (b = a):
+                    # the outputs of a graph must be distinct.
+                    output = self._emit_copy(output, python_var)
                 self._current_fn.outputs.append(output)
             else:
                 python_var_value = None
